@@ -15,6 +15,9 @@ CLAIMED = {
  "C11": ("4.4", "seeded search over operation histories on one stateful objective object (evaluate with well-behaved, destabilising and NaN vectors, initialize, set_model with Python/njit/diverging/NaN-after-t model equations, set_raw, get_differentials, ModelObjective cycles, contract-violating calls); after every operation the value is compared bit-for-bit with a fresh objective on a freshly built instance and with the documented aggregate of independently recomputed per-case J, and the collected training data with a ledger that only raw-mode evaluations may extend. A clean batch is evidence, not proof.",
          "trusted: run_ode/j_from_ode (decided by C10), numpy mean/log1p/expm1, numba; model equations and the synthetic system are simulator stubs",
          "deterministic simulation with fault injection (interleaved operation histories on a shared stateful object vs. stateless reference model + ledger)"),
+ "C17": ("4.7", "seeded search over generation histories: one InstanceDecoder and one or two Hardness/ErrorsAndHardness objects are driven through decode(x) calls (uniform, clipped-to-the-box and repeated vectors, fresh or reused receivers, 0-8 slack pairs) and objective evaluations on decoded instances and the template, repeated after other instances of the same name; every decoded instance is checked for name, bin size, item count, the area window, lower bound = template bin need and packability by a position-tracking witness layout judged by the independent packing predicate; equal vectors must give equal instances and repeated evaluations equal values, also in a fresh interpreter under another hash seed. A clean batch is evidence, not proof.",
+         "trusted: packing feasibility predicate, moptipy Execution/RLS/rand_seeds_from_str; a missing witness is recorded as undecided, never as a violation",
+         "deterministic simulation with fault injection (seeded randomness + nested seeded runs under operation histories; replay equality across histories and interpreters; witness construction)"),
  "C14": ("4.1", "seeded search over histories of decodings that share one encoder object and one or two destination packings, with scribbled scratch/destination state injected between operations; every decode is compared row by row with an executable reference model of the documented bottom-left rule. A clean batch is evidence, not proof.",
          "trusted: the reference model in simkit/oracles/packing.py (derived from the module docstrings), numba, numpy, moptipy",
          "deterministic simulation with fault injection (shared-object operation histories + state scribbling vs. reference model)"),
